@@ -112,6 +112,14 @@ structure Codec (V : Type) where
   pickle : V → List Nat
   unpickle : List Nat → Option V
 
+/-- the message the signature is computed over, after the repair "the signature covers key and payload as a
+pair": the key is length-prefixed (`str(len(key)) + ":" + key + payload`; the length is one token here) -/
+def macMsg (key payload : List Nat) : List Nat := key.length :: (key ++ payload)
+
+/-- the message before that repair: the bare concatenation `key + payload` (kept for the negative witness
+`HG.C09.replay_under_other_key_witness`) -/
+def macMsgConcat (key payload : List Nat) : List Nat := key ++ payload
+
 /-- observable outcome of `DiskCache.get` -/
 structure GetOut (V : Type) where
   /-- `some v` = `(True, v)`; `none` = `(False, None)` -/
